@@ -25,7 +25,7 @@
 (*   [t |-> "lit"|"doctest"|"code", reg, lv, var, m]   verbatim block,     *)
 (*                                            template var, marker word m  *)
 (*   [t |-> "head", reg, lv, level, w]        section heading              *)
-(*   [t |-> "field", reg, lv, kind, arg]      start of field number reg    *)
+(*   [t |-> "field", reg, lv, kind, arg, form, ctag]  start of field reg    *)
 (* reg = 0 is the description, reg = k > 0 the body of the k-th field;     *)
 (* lv = number of enclosing lists.                                         *)
 (*                                                                         *)
@@ -40,6 +40,7 @@ CONSTANTS MaxActions,   \* bound on the number of builder actions
           MaxFields,    \* bound on the number of fields
           Kinds,        \* field kinds enabled in this run (subset of DOMAIN KindTable)
           Blocks,       \* enabled block actions, subset of {"para","list","lit","doctest","code","section"}
+          Forms,        \* ways of writing a field enabled in this run, subset of {"plain", "cbullet", "cdef"}
           FreeChoice    \* TRUE: inline style and verbatim template are free choices
                         \* FALSE: they rotate with the word counter (every one occurs, in varying contexts)
 
@@ -112,6 +113,17 @@ KindTable ==
     "ivar"       :> KR("attr",    {"xa"},              {"class", "function"}, "") @@
     "cvar"       :> KR("attr",    {"xb"},              {"class", "function"}, "") @@
     "var"        :> KR("attr",    {"xc"},              {"module", "class", "function"}, "") )
+\* reStructuredText CONSOLIDATED fields (restructuredtext.py CONSOLIDATED_FIELDS): one field ":Parameters:" whose body is
+\* a single list with one entry per documented name; pydoctor splits it into individual fields of the entry kind.
+\*   form "cbullet": bullet list,      - `name`: description (any blocks, indented under the item)
+\*   form "cdef"   : definition list,  name <newline> indented description (only the kinds in ConsDefKinds)
+\* Consecutive fields of the same kind and form are entries of ONE consolidated field.  The oracle does not change:
+\* every entry is a field of its kind and argument.
+ConsTag == ( "param" :> "Parameters" @@ "arg" :> "Arguments" @@ "keyword" :> "Keywords" @@ "type" :> "Types" @@
+             "except" :> "Exceptions" @@ "var" :> "Variables" @@ "ivar" :> "IVariables" @@ "cvar" :> "CVariables" )
+ConsDefKinds == {"param", "arg", "keyword", "var", "ivar", "cvar"}
+FormsOf(kind) == {"plain"} \cup (IF kind \in DOMAIN ConsTag THEN {"cbullet"} ELSE {})
+                          \cup (IF kind \in ConsDefKinds THEN {"cdef"} ELSE {})
 VarLike == {"ivar", "cvar", "var"}
 TypeLike == {"type", "rtype", "returntype", "ytype", "yieldtype"}
 
@@ -198,14 +210,15 @@ OpenSection(level) ==
     /\ lists' = <<>> /\ sect' = level /\ last' = "head"
     /\ UNCHANGED <<nf, hosts, once>>
 
-\* ---- AddField(kind, arg [, host]): fields come last, each starts with a paragraph (a type is one word)
+\* ---- AddField(kind, arg, host, style, form): fields come last, each starts with a paragraph (a type is one word)
 HostChoice(kind) == LET hs == hosts \cap KindTable[kind].hosts
                     IN IF kind \in VarLike THEN {{x} : x \in hs} ELSE IF hs = {} THEN {} ELSE {hs}
-AddField(kind, arg, h, st) ==
+AddField(kind, arg, h, st, form) ==
     /\ nf < MaxFields
     /\ KindTable[kind].once \notin once
     /\ Step(StyleWords[st])
-    /\ doc' = doc \o << [t |-> "field", reg |-> nf + 1, lv |-> 0, kind |-> kind, arg |-> arg],
+    /\ doc' = doc \o << [t |-> "field", reg |-> nf + 1, lv |-> 0, kind |-> kind, arg |-> arg, form |-> form,
+                         ctag |-> IF form = "plain" THEN "" ELSE ConsTag[kind]],
                         [Para(0, st) EXCEPT !.reg = nf + 1] >>
     /\ nf' = nf + 1 /\ lists' = <<>> /\ last' = "para" /\ hosts' = h
     /\ once' = IF KindTable[kind].once = "" THEN once ELSE once \cup {KindTable[kind].once}
@@ -218,7 +231,8 @@ Next == \/ \E up \in 0..Depth, st \in StyleChoice : AddPara(up, st) \/ AddItem(u
                                  \/ \E c \in VarChoice("code") : AddCode(up, c)
         \/ \E level \in 1..2 : OpenSection(level)
         \/ \E kind \in Kinds : \E arg \in KindTable[kind].args : \E h \in HostChoice(kind) :
-               \E st \in (IF kind \in TypeLike THEN {"word"} ELSE StyleChoice) : AddField(kind, arg, h, st)
+               \E st \in (IF kind \in TypeLike THEN {"word"} ELSE StyleChoice) : \E form \in FormsOf(kind) \cap Forms :
+                   AddField(kind, arg, h, st, form)
 Spec == Init /\ [][Next]_vars
 
 \* ================================================================== the oracle (property C09)
